@@ -504,11 +504,12 @@ def ob_simu_center(case):
     from EasyFEA.Geoms import Domain, Point, Line
     with contextlib.redirect_stdout(io.StringIO()):
         if case in ("TRI3", "QUAD4", "TETRA4", "HEXA8"):
-            dom = Domain(Point(-1, -1), Point(1, 1), 0.5)
-            mesh = dom.Mesh_2D([], ElemType[case]) if case in ("TRI3", "QUAD4") else Domain(Point(-1, -1, -1), Point(1, 1, -1), 1.0).Mesh_Extrude([], [0, 0, 2], [2], ElemType[case])
-            sm = Simulations.Elastic(mesh, Models.Elastic.Isotropic(mesh.dim))
+            # a domain that is NOT centred at the origin, with three different centre coordinates (a sum over the wrong axes cannot cancel)
+            dom = Domain(Point(0.5, -1), Point(2.5, 3), 0.5)
+            mesh = dom.Mesh_2D([], ElemType[case]) if case in ("TRI3", "QUAD4") else Domain(Point(0.5, -1, 0.25), Point(2.5, 3, 0.25), 1.0).Mesh_Extrude([], [0, 0, 2], [2], ElemType[case])
+            sm = Simulations.Elastic(mesh, Models.Elastic.Isotropic(mesh.dim, thickness=0.7) if mesh.dim == 2 else Models.Elastic.Isotropic(3))
             sm.rho = 2.5
-            want = np.zeros(3)
+            want = np.array([1.5, 1.0, 0.0 if mesh.dim == 2 else 1.25])
         else:
             s1 = Mesher().Mesh_2D(Domain(Point(), Point(0.1, 0.1)))
             s2 = Mesher().Mesh_2D(Domain(Point(), Point(0.2, 0.2)))
